@@ -223,9 +223,12 @@ class Dump(object):
             self.vals.append(row)
         self.classes = []
         for mcl in metaclasses:
+            # identifiers may be declared under another spelling of the attribute names (names are case-insensitive): the dump
+            # speaks of the attributes by their declared spelling
+            canon = dict((n.upper(), n) for n, _ in mcl.attributes)
             self.classes.append({'attrs': [[n, t.upper() == 'UNIQUE_ID'] for n, t in mcl.attributes],
-                                 'idents': [[k, list(v)] for k, v in mcl.indices.items()],
-                                 'identifying': sorted(mcl.identifying_attributes)})
+                                 'idents': [[k, [canon.get(a.upper(), a) for a in v]] for k, v in mcl.indices.items()],
+                                 'identifying': sorted(set(canon.get(a.upper(), a) for a in mcl.identifying_attributes))})
 
     def partners(self, ai, side, x):
         for e in self.links[ai][side]:
@@ -518,8 +521,11 @@ def run_impl(case):
                     break
         else:
             model = mc.Model(schema)
-            for (k, name, attrs) in schema['idents']:
-                model.m.define_unique_identifier(schema['classes'][k]['name'], name, *attrs)
+            for n_id, (k, name, attrs) in enumerate(schema['idents']):
+                # every other history declares its identifiers under respelled attribute names (docs/audit-round4.md, 1)
+                how = (len(case['ops']) + n_id) % 4 if len(case['ops']) % 2 else 0
+                spell = [lambda a: a, str.upper, str.lower, str.swapcase][how]
+                model.m.define_unique_identifier(schema['classes'][k]['name'], name, *[spell(a) for a in attrs])
         for op in case['ops'][k0:]:
             model.apply(op)
         for (ai, x, y) in case['forced']:
